@@ -41,3 +41,45 @@ Example C08_av1_example :
   retained (fst (dec_run dinit (map (fun s => mkPkt s 0 false [80; 9]) [1; 2; 3; 4; 5]))) = (1, 1) /\
   retained (fst (dec_run_old dinit (map (fun s => mkPkt s 0 false [80; 9]) [1; 2; 3; 4; 5]))) = (5, 5).
 Proof. repeat split; vm_compute; reflexivity. Qed.
+
+(* ---- the translated kernels (tools/go2coq, regenerated from the Go source on every run) ----
+   The length tests and caps of rtpav1/decoder.go - len(payload) < 2, the W field (h >> 4) & 3, the "element carries a
+   size" test w == 0 || byte(len(obus)) < w-1, the size test size == 0 || len(payload) < int(size), the W check
+   w != 0 && len(obus) != int(w), the accumulation d.fragmentsSize += len(obus[0]) and its cap
+   > av1.MaxTemporalUnitSize, the OBU-count cap and the temporal-unit size cap of Decode with their accumulations - ARE
+   the tests of Model.decode_obus / decode_body / parse_obus / post_parse / finish (the constants are GVG.Consts'
+   av1_max_tu_size, av1_max_obus). *)
+From Coq Require Import ZArith.
+From GVG Require Import Kern.
+From GV_av1 Require Import BridgeLib Bridge.
+Open Scope Z_scope.
+
+Theorem C08_av1_kernels_are_the_code :
+  forall (pl p1 o0 : bytes) (h w cnt size fs fl l fsz add : N),
+  byte h -> byte w -> (size < 4294967296)%N ->
+  Z.of_N (fs + nlen o0) < i64max -> Z.of_N (fl + l) < i64max -> Z.of_N (fsz + add) < i64max ->
+  k_av1_dec_short (Z.of_N (nlen pl)) = (nlen pl <? 2)%N /\
+  k_av1_dec_w (Z.of_N h) = Z.of_N ((h / 16) mod 4) /\
+  k_av1_dec_sized (Z.of_N w) (Z.of_N cnt) = ((w =? 0) || (cnt mod 256 <? w - 1))%N /\
+  k_av1_dec_badsize (Z.of_N size) (Z.of_N (nlen p1)) = ((size =? 0) || (nlen p1 <? size))%N /\
+  k_av1_dec_badw (Z.of_N w) (Z.of_N cnt) = (negb (w =? 0) && negb (cnt =? w))%N /\
+  k_av1_dec_acc (Z.of_N fs) (Z.of_N (nlen o0)) = Z.of_N (fs + nlen o0) /\
+  k_av1_dec_cap (k_av1_dec_acc (Z.of_N fs) (Z.of_N (nlen o0))) (Z.of_N cap_size) = (cap_size <? fs + nlen o0)%N /\
+  k_av1_fb_count (Z.of_N fl) (Z.of_N l) (Z.of_N cap_obus) = (cap_obus <? fl + l)%N /\
+  k_av1_fb_size (Z.of_N fsz) (Z.of_N add) (Z.of_N cap_size) = (cap_size <? fsz + add)%N /\
+  k_av1_fb_len_acc (Z.of_N fl) (Z.of_N l) = Z.of_N (fl + l) /\
+  k_av1_fb_size_acc (Z.of_N fsz) (Z.of_N add) = Z.of_N (fsz + add).
+Proof. exact caps_kernels_are_the_code. Qed.
+Print Assumptions C08_av1_kernels_are_the_code.
+
+Example C08_av1_example_kernels :
+  k_av1_dec_short 1 = true /\ k_av1_dec_short 2 = false /\ k_av1_dec_w 176 = 3 /\ k_av1_dec_w 79 = 0 /\
+  k_av1_dec_sized 0 9 = true /\ k_av1_dec_sized 3 1 = true /\ k_av1_dec_sized 3 2 = false /\ k_av1_dec_sized 1 0 = false /\
+  k_av1_dec_sized 3 257 = true /\
+  k_av1_dec_badsize 0 5 = true /\ k_av1_dec_badsize 5 4 = true /\ k_av1_dec_badsize 5 5 = false /\
+  k_av1_dec_badw 0 7 = false /\ k_av1_dec_badw 2 2 = false /\ k_av1_dec_badw 2 3 = true /\
+  k_av1_dec_cap (k_av1_dec_acc (Z.of_N cap_size - 10) 10) (Z.of_N cap_size) = false /\
+  k_av1_dec_cap (k_av1_dec_acc (Z.of_N cap_size - 10) 11) (Z.of_N cap_size) = true /\
+  k_av1_fb_count (Z.of_N cap_obus - 1) 1 (Z.of_N cap_obus) = false /\ k_av1_fb_count (Z.of_N cap_obus) 1 (Z.of_N cap_obus) = true /\
+  k_av1_fb_size (Z.of_N cap_size - 1) 1 (Z.of_N cap_size) = false /\ k_av1_fb_size (Z.of_N cap_size) 1 (Z.of_N cap_size) = true.
+Proof. vm_compute. repeat split. Qed.
